@@ -43,6 +43,12 @@ func (ssm *serverSessionMedia) initialize() {
 	ssm.formats = make(map[uint8]*serverSessionFormat)
 
 	for _, forma := range ssm.media.Formats {
+		// a payload type identifies a single format;
+		// a second format with the same payload type would never be closed.
+		if _, ok := ssm.formats[forma.PayloadType()]; ok {
+			continue
+		}
+
 		f := &serverSessionFormat{
 			ssm:         ssm,
 			format:      forma,
